@@ -1018,6 +1018,17 @@ func genProgram(rng *rand.Rand, base int, n int) []int {
 	oneByte := []int{0x00, 0x04, 0x0c, 0x14, 0x1c, 0x3c, 0x3d, 0x05, 0x0d, 0x87, 0xa8, 0xb1, 0x2f, 0x37, 0x3f, 0x07, 0x17, 0x27, 0x47, 0x79}
 	for i := 0; i < n; i++ {
 		at := base + len(code)
+		if rng.Intn(12) == 0 {
+			// a CB-prefixed instruction next to the unprefixed instruction with the same opcode byte, in either order
+			// (register-only ones, so that the pair is harmless anywhere): decoding must not carry over
+			b := []int{0x40, 0x41, 0x47, 0x50, 0x5f, 0x78, 0x7f, 0x80, 0x87, 0x90, 0xa8, 0xb1, 0x04, 0x0c, 0x14, 0x1c, 0x3c, 0x05, 0x3d, 0x07, 0x17, 0x2f, 0x37, 0x3f}[rng.Intn(24)]
+			if rng.Intn(2) == 0 {
+				code = append(code, 0xcb, b, b)
+			} else {
+				code = append(code, b, 0xcb, b)
+			}
+			continue
+		}
 		switch r := rng.Intn(100); {
 		case r < 12: // JR cc / JR with displacement 0 or skipping one 1-byte instruction
 			op := []int{0x20, 0x28, 0x30, 0x38, 0x18}[rng.Intn(5)]
